@@ -165,30 +165,142 @@ func ruleEOFNotAnError(c *Ctx, rule string) {
 	r.Floor(rule, "read calls in package files whose error can reach a panic", n, 1)
 }
 
-// ruleSizeAgreement implements C07.R2.
+// ruleSizeAgreement implements C07.R2. The relation is checked on SSA values, not on names: for every constructor of files.Reader
+// (a function of package files that returns a *Reader it builds, directly or through a helper), the value stored as `size` is the
+// length of what the value stored as `contents` delivers.
 func ruleSizeAgreement(c *Ctx, rule string) {
 	r := c.R
-	want := map[string][2]string{
-		"ReaderFromString":       {"NewStringReadCloser(contents)", "len(contents)"},
-		"ReaderFromFileToMemory": {"NewStringReadCloser(string(ReadFile(filename)#0))", "len(ReadFile(filename)#0)"},
-		"ReaderFromFile":         {"NewBufferedFile(Open(filename)#0, Open(filename)#0.Stat()#0.Size())", "int(Open(filename)#0.Stat()#0.Size())"},
+	rdT := c.NamedType("files", "Reader")
+	if rdT == nil {
+		r.Ob(rule, "anchor files.Reader", "").Und("not found")
+		return
 	}
-	for _, name := range sortedKeys(want) {
-		fn := c.Fn("files", name)
-		ob := r.Ob(rule, "files."+name+": size equals the length of what the contents deliver", "")
-		if fn == nil {
-			ob.Und("not found")
+	strip := func(v ssa.Value) ssa.Value {
+		for {
+			switch x := v.(type) {
+			case *ssa.Convert:
+				v = x.X
+				continue
+			case *ssa.ChangeType:
+				v = x.X
+				continue
+			case *ssa.MakeInterface:
+				v = x.X
+				continue
+			}
+			return v
+		}
+	}
+	// literal: the values stored into the fields of the Reader a function builds
+	literal := func(fn *ssa.Function) map[string]ssa.Value {
+		out := map[string]ssa.Value{}
+		instrsOf(fn, func(in ssa.Instruction) {
+			st, ok := in.(*ssa.Store)
+			if !ok {
+				return
+			}
+			fa, ok := st.Addr.(*ssa.FieldAddr)
+			if !ok || !types.Identical(deref(fa.X.Type()), rdT) {
+				return
+			}
+			if _, isAlloc := fa.X.(*ssa.Alloc); isAlloc {
+				out[fieldName(rdT, fa.Field)] = st.Val
+			}
+		})
+		return out
+	}
+	n := 0
+	for _, fn := range c.SrcFuncs("files") {
+		res := fn.Signature.Results()
+		if fn.Signature.Recv() != nil || res.Len() != 1 || !types.Identical(deref(res.At(0).Type()), rdT) || !fn.Object().Exported() {
 			continue
 		}
-		ob.Pos = c.pos(fn.Pos())
-		got := literalFields(fn, "Reader")
-		w := want[name]
-		if got["contents"] == w[0] && got["size"] == w[1] && (got["offset"] == "0" || got["offset"] == "") {
-			ob.OKnt("contents = " + got["contents"] + "; size = " + got["size"])
+		n++
+		ob := r.Ob(rule, "files."+fn.Name()+": size equals the length of what the contents deliver", c.pos(fn.Pos()))
+		lit := literal(fn)
+		if len(lit) == 0 {
+			// built by a helper: its literal in terms of its parameters, bound to the arguments of the call
+			instrsOf(fn, func(in ssa.Instruction) {
+				ret, ok := in.(*ssa.Return)
+				if !ok || len(ret.Results) != 1 {
+					return
+				}
+				call, ok := ret.Results[0].(*ssa.Call)
+				if !ok {
+					return
+				}
+				h := call.Call.StaticCallee()
+				if h == nil || !c.isRepoFn(h) {
+					return
+				}
+				for f, v := range literal(h) {
+					if p, ok := v.(*ssa.Parameter); ok {
+						for i, q := range h.Params {
+							if q == p && i < len(call.Call.Args) {
+								lit[f] = call.Call.Args[i]
+							}
+						}
+					} else {
+						lit[f] = v
+					}
+				}
+			})
+		}
+		cv, sv := lit["contents"], lit["size"]
+		if cv == nil || sv == nil {
+			ob.Und("the Reader literal (fields contents and size) was not found in the constructor or in the helper it returns")
+			continue
+		}
+		if ov := lit["offset"]; ov != nil {
+			if k, ok := constInt(ov); !ok || k != 0 {
+				ob.Bad("the reader does not start at offset 0: offset = " + exprStr(ov))
+				continue
+			}
+		}
+		cc, ok := strip(cv).(*ssa.Call)
+		if !ok || cc.Call.StaticCallee() == nil {
+			ob.Und("contents = " + exprStr(cv) + " is not a constructor call")
+			continue
+		}
+		var delivered ssa.Value // the value whose length the contents deliver
+		isLenOf := false
+		switch cc.Call.StaticCallee().Name() {
+		case "NewStringReadCloser":
+			delivered, isLenOf = strip(cc.Call.Args[0]), true
+		case "NewBufferedFile":
+			if len(cc.Call.Args) == 2 {
+				delivered = strip(cc.Call.Args[1])
+			}
+		}
+		if delivered == nil {
+			ob.Und("contents = " + exprStr(cv) + ": unknown kind of contents")
+			continue
+		}
+		okSize := false
+		sz := strip(sv)
+		if isLenOf {
+			if lc, ok := sz.(*ssa.Call); ok {
+				if b, ok := lc.Call.Value.(*ssa.Builtin); ok && b.Name() == "len" && len(lc.Call.Args) == 1 && strip(lc.Call.Args[0]) == delivered {
+					okSize = true
+				}
+			}
+		} else if sameCallValue(sz, delivered, 0) {
+			// the size handed to the buffered file must be the size reported by Stat() of the very file that is wrapped
+			if sc, ok := delivered.(*ssa.Call); ok && sc.Call.IsInvoke() && sc.Call.Method.Name() == "Size" {
+				if ex, ok := sc.Call.Value.(*ssa.Extract); ok && ex.Index == 0 {
+					if stat, ok := ex.Tuple.(*ssa.Call); ok && stat.Call.StaticCallee() != nil && stat.Call.StaticCallee().Name() == "Stat" && len(stat.Call.Args) == 1 && stat.Call.Args[0] == strip(cc.Call.Args[0]) {
+						okSize = true
+					}
+				}
+			}
+		}
+		if okSize {
+			ob.OKnt("contents = " + exprStr(cv) + "; size = " + exprStr(sv))
 		} else {
-			ob.Bad(fmt.Sprintf("contents = %s, size = %s, offset = %s; expected contents = %s and size = %s", got["contents"], got["size"], got["offset"], w[0], w[1]))
+			ob.Bad(fmt.Sprintf("contents = %s but size = %s: the size is not the length of what the contents deliver, so reads near the end are cut short or run past it", exprStr(cv), exprStr(sv)))
 		}
 	}
+	r.Floor(rule, "exported constructors of files.Reader", n, 3)
 }
 
 // ruleOneAccessPath implements C07.R3 (axiom A5) and R4 (BufferedFile never uses the OS file cursor after construction).
@@ -358,7 +470,8 @@ func ruleModeTable(c *Ctx, rule string) {
 		}
 		r.Ob(rule, "searchReplace: file operations outside the mode switch", c.pos(extra[0].call.Pos())).Bad("file operations that are not selected by the replace mode: " + strings.Join(ws, ", "))
 	}
-	// Run passes NOTHING; RunFiles forces NOTHING for file names
+	// Run passes NOTHING; RunFiles forces NOTHING for file names. The mode that reaches search() is followed from each API function
+	// through helpers, with the API function's bool parameter fixed to true and to false.
 	run := c.Fn("engine", "Run")
 	search := c.Fn("engine", "search")
 	ob := r.Ob(rule, "engine.Run searches in mode NOTHING", "")
@@ -366,16 +479,17 @@ func ruleModeTable(c *Ctx, rule string) {
 		ob.Und("engine.Run/search not found")
 	} else {
 		ob.Pos = c.pos(run.Pos())
-		got := ""
-		for _, call := range callsTo(run, search) {
-			got = c.constNameOf("engine", "ReplaceMode", func() PVal {
-				if k, ok := call.Call.Args[3].(*ssa.Const); ok {
-					return PConst{k.Value, k.Type()}
-				}
-				return PTop{}
-			}())
+		leaves, n := c.modesReachingSearch(run, search, nil)
+		switch {
+		case n == 0:
+			ob.Und("no call of search is reached from engine.Run")
+		case len(leaves) == 1 && leaves["NOTHING"]:
+			ob.OKnt("every mode that reaches search() from Run is the constant NOTHING")
+		case leaves["?"]:
+			ob.Und("the mode that reaches search() from Run could not be followed: " + strings.Join(sortedKeys(leaves), ", "))
+		default:
+			ob.Bad("engine.Run passes mode " + strings.Join(sortedKeys(leaves), ", ") + ": running on a string would touch files")
 		}
-		ob.Check(got == "NOTHING", "search(..., NOTHING)", "engine.Run passes mode "+got+": running on a string would touch files")
 	}
 	rf := c.Fn("engine", "RunFiles")
 	ob2 := r.Ob(rule, "engine.RunFiles forces NOTHING when processing file names", "")
@@ -383,40 +497,207 @@ func ruleModeTable(c *Ctx, rule string) {
 		ob2.Und("engine.RunFiles not found")
 	} else {
 		ob2.Pos = c.pos(rf.Pos())
-		okPhi := false
-		got := ""
-		for _, call := range callsTo(rf, search) {
-			got = exprStr(call.Call.Args[3])
-			if p, ok := call.Call.Args[3].(*ssa.Phi); ok {
-				hasConst, hasParam := false, false
-				for _, e := range p.Edges {
-					if k, ok := e.(*ssa.Const); ok && c.constNameOf("engine", "ReplaceMode", PConst{k.Value, k.Type()}) == "NOTHING" {
-						hasConst = true
-					}
-					if _, ok := e.(*ssa.Parameter); ok {
-						hasParam = true
+		var flag, modeP *ssa.Parameter
+		for _, p := range rf.Params {
+			if b, ok := p.Type().Underlying().(*types.Basic); ok && b.Kind() == types.Bool {
+				flag = p
+			}
+			if n, ok := p.Type().(*types.Named); ok && n.Obj().Name() == "ReplaceMode" {
+				modeP = p
+			}
+		}
+		if flag == nil || modeP == nil {
+			ob2.Und("RunFiles has no (mode, bool) parameters")
+		} else {
+			on, n1 := c.modesReachingSearch(rf, search, map[*ssa.Parameter]bool{flag: true})
+			off, n2 := c.modesReachingSearch(rf, search, map[*ssa.Parameter]bool{flag: false})
+			want := "param " + modeP.Name()
+			switch {
+			case n1 == 0 || n2 == 0:
+				ob2.Und("no call of search is reached from engine.RunFiles")
+			case len(on) == 1 && on["NOTHING"] && len(off) == 1 && off[want]:
+				ob2.OKnt("search receives NOTHING when " + flag.Name() + " is set, else the caller's mode")
+			case on["?"] || off["?"]:
+				ob2.Und(fmt.Sprintf("the mode that reaches search() could not be followed (with %s set: %v, otherwise %v)", flag.Name(), sortedKeys(on), sortedKeys(off)))
+			default:
+				ob2.Bad(fmt.Sprintf("with %s set the mode passed to search is %v, otherwise %v; expected NOTHING, otherwise the caller's mode", flag.Name(), sortedKeys(on), sortedKeys(off)))
+			}
+		}
+		ob2.Nontrivial = true
+	}
+}
+
+// modesReachingSearch follows ReplaceMode values from the API function `root` to the calls of search(), through helper functions
+// of package engine, with some bool parameters of root fixed. Leaves are constant names, "param <name>" (a parameter of root) or "?".
+func (c *Ctx) modesReachingSearch(root, search *ssa.Function, fixed map[*ssa.Parameter]bool) (map[string]bool, int) {
+	leaves := map[string]bool{}
+	ncalls := 0
+	type binding map[*ssa.Parameter]map[string]bool // parameter -> leaves
+	type bools map[*ssa.Parameter]*bool
+	var evalBool func(v ssa.Value, bs bools) *bool
+	evalBool = func(v ssa.Value, bs bools) *bool {
+		switch x := v.(type) {
+		case *ssa.Parameter:
+			return bs[x]
+		case *ssa.Const:
+			if x.Value != nil && x.Value.Kind() == constant.Bool {
+				b := constant.BoolVal(x.Value)
+				return &b
+			}
+		case *ssa.UnOp:
+			if x.Op == token.NOT {
+				if b := evalBool(x.X, bs); b != nil {
+					nb := !*b
+					return &nb
+				}
+			}
+		}
+		return nil
+	}
+	// feasible blocks of fn under the known bools
+	feasible := func(fn *ssa.Function, bs bools) (map[*ssa.BasicBlock]bool, map[[2]*ssa.BasicBlock]bool) {
+		blocks := map[*ssa.BasicBlock]bool{}
+		edges := map[[2]*ssa.BasicBlock]bool{}
+		work := []*ssa.BasicBlock{fn.Blocks[0]}
+		for len(work) > 0 {
+			b := work[len(work)-1]
+			work = work[:len(work)-1]
+			if blocks[b] {
+				continue
+			}
+			blocks[b] = true
+			succs := b.Succs
+			if iff, ok := b.Instrs[len(b.Instrs)-1].(*ssa.If); ok {
+				if k := evalBool(iff.Cond, bs); k != nil {
+					if *k {
+						succs = b.Succs[:1]
+					} else {
+						succs = b.Succs[1:]
 					}
 				}
-				// the constant arrives through a branch on a bool parameter (processFilenames)
-				underFlag := false
-				for i, e := range p.Edges {
-					if _, isConst := e.(*ssa.Const); isConst {
-						pred := p.Block().Preds[i]
-						for _, l := range condsOf(NewPostDom(rf).ControlDeps(), pred) {
-							if prm, ok := l.Cond.(*ssa.Parameter); ok && l.Pol {
-								if b, ok := prm.Type().Underlying().(*types.Basic); ok && b.Kind() == types.Bool {
-									underFlag = true
-								}
+			}
+			for _, s := range succs {
+				edges[[2]*ssa.BasicBlock{b, s}] = true
+				work = append(work, s)
+			}
+		}
+		return blocks, edges
+	}
+	var visit func(fn *ssa.Function, bind binding, bs bools, depth int)
+	var evalMode func(v ssa.Value, fn *ssa.Function, bind binding, bs bools, edges map[[2]*ssa.BasicBlock]bool, depth int) map[string]bool
+	evalMode = func(v ssa.Value, fn *ssa.Function, bind binding, bs bools, edges map[[2]*ssa.BasicBlock]bool, depth int) map[string]bool {
+		out := map[string]bool{}
+		switch x := v.(type) {
+		case *ssa.Const:
+			out[c.constNameOf("engine", "ReplaceMode", PConst{x.Value, x.Type()})] = true
+		case *ssa.Parameter:
+			if l, ok := bind[x]; ok {
+				for k := range l {
+					out[k] = true
+				}
+			} else {
+				out["param "+x.Name()] = true
+			}
+		case *ssa.Phi:
+			for i, e := range x.Edges {
+				if !edges[[2]*ssa.BasicBlock{x.Block().Preds[i], x.Block()}] {
+					continue
+				}
+				for k := range evalMode(e, fn, bind, bs, edges, depth) {
+					out[k] = true
+				}
+			}
+		case *ssa.Call:
+			h := x.Call.StaticCallee()
+			if h == nil || !c.isRepoFn(h) || len(h.Blocks) == 0 || depth > 3 {
+				out["?"] = true
+				break
+			}
+			hb, hbs := binding{}, bools{}
+			for i, p := range h.Params {
+				if i >= len(x.Call.Args) {
+					continue
+				}
+				if k := evalBool(x.Call.Args[i], bs); k != nil {
+					hbs[p] = k
+				}
+				if n, ok := p.Type().(*types.Named); ok && n.Obj().Name() == "ReplaceMode" {
+					hb[p] = evalMode(x.Call.Args[i], fn, bind, bs, edges, depth)
+				}
+			}
+			hblocks, hedges := feasible(h, hbs)
+			for _, blk := range h.Blocks {
+				if !hblocks[blk] {
+					continue
+				}
+				if ret, ok := blk.Instrs[len(blk.Instrs)-1].(*ssa.Return); ok && len(ret.Results) > 0 {
+					for k := range evalMode(ret.Results[0], h, hb, hbs, hedges, depth+1) {
+						out[k] = true
+					}
+				}
+			}
+		default:
+			out["?"] = true
+		}
+		return out
+	}
+	seen := map[*ssa.Function]int{}
+	visit = func(fn *ssa.Function, bind binding, bs bools, depth int) {
+		if depth > 4 || seen[fn] > 8 {
+			return
+		}
+		seen[fn]++
+		blocks, edges := feasible(fn, bs)
+		for _, blk := range fn.Blocks {
+			if !blocks[blk] {
+				continue
+			}
+			for _, in := range blk.Instrs {
+				call, ok := in.(*ssa.Call)
+				if !ok {
+					continue
+				}
+				callee := call.Call.StaticCallee()
+				if callee == nil || !c.isRepoFn(callee) || callee.Pkg != root.Pkg {
+					continue
+				}
+				if callee == search {
+					ncalls++
+					for i, p := range search.Params {
+						if n, ok := p.Type().(*types.Named); ok && n.Obj().Name() == "ReplaceMode" && i < len(call.Call.Args) {
+							for k := range evalMode(call.Call.Args[i], fn, bind, bs, edges, depth) {
+								leaves[k] = true
 							}
 						}
 					}
+					continue
 				}
-				okPhi = hasConst && hasParam && underFlag
+				if !c.Reachable(callee)[search] {
+					continue
+				}
+				nb, nbs := binding{}, bools{}
+				for i, p := range callee.Params {
+					if i >= len(call.Call.Args) {
+						continue
+					}
+					if k := evalBool(call.Call.Args[i], bs); k != nil {
+						nbs[p] = k
+					}
+					if n, ok := p.Type().(*types.Named); ok && n.Obj().Name() == "ReplaceMode" {
+						nb[p] = evalMode(call.Call.Args[i], fn, bind, bs, edges, depth)
+					}
+				}
+				visit(callee, nb, nbs, depth+1)
 			}
 		}
-		ob2.Check(okPhi, "search receives `NOTHING when processFilenames, else the caller's mode` ("+got+")", "the mode passed to search ("+got+") is not `NOTHING when processFilenames, else the caller's mode`")
-		ob2.Nontrivial = true
 	}
+	bs := bools{}
+	for p, v := range fixed {
+		vv := v
+		bs[p] = &vv
+	}
+	visit(root, binding{}, bs, 0)
+	return leaves, ncalls
 }
 
 // ruleWhoWritesFiles implements C06.R2 / R3.
@@ -427,9 +708,50 @@ func ruleWhoWritesFiles(c *Ctx, rule string) {
 	rf0 := c.Fn("engine", "RunFiles")
 	// underFilenamesFlag: the instruction, or every call chain from RunFiles that reaches its function, is control-dependent on the
 	// bool parameter of RunFiles (processFilenames)
+	// struct fields that hold RunFiles' bool parameter (a run description built by RunFiles): a test of such a field is a test of the flag
+	type fkey struct {
+		t   string
+		idx int
+	}
+	flagFields := map[fkey]bool{}
+	if rf0 != nil {
+		isFlagParam := func(v ssa.Value) bool {
+			p, ok := v.(*ssa.Parameter)
+			if !ok || p.Parent() != rf0 {
+				return false
+			}
+			b, ok := p.Type().Underlying().(*types.Basic)
+			return ok && b.Kind() == types.Bool
+		}
+		instrsOf(rf0, func(in ssa.Instruction) {
+			if st, ok := in.(*ssa.Store); ok && isFlagParam(st.Val) {
+				if fa, ok := st.Addr.(*ssa.FieldAddr); ok {
+					flagFields[fkey{types.TypeString(deref(fa.X.Type()), nil), fa.Field}] = true
+				}
+			}
+		})
+	}
+	isFlagFieldRead := func(v ssa.Value) bool {
+		switch x := v.(type) {
+		case *ssa.Field:
+			return flagFields[fkey{types.TypeString(x.X.Type(), nil), x.Field}]
+		case *ssa.UnOp:
+			if fa, ok := x.X.(*ssa.FieldAddr); ok && x.Op == token.MUL {
+				return flagFields[fkey{types.TypeString(deref(fa.X.Type()), nil), fa.Field}]
+			}
+		}
+		return false
+	}
 	var underFlag func(in ssa.Instruction, depth int) bool
 	underFlag = func(in ssa.Instruction, depth int) bool {
 		fn := in.Parent()
+		if len(flagFields) > 0 && rf0 != nil && (fn == rf0 || c.onlyThrough(c.runRoots(), rf0, fn)) {
+			for _, l := range condsOf(NewPostDom(fn).ControlDeps(), in.Block()) {
+				if isFlagFieldRead(l.Cond) && l.Pol {
+					return true
+				}
+			}
+		}
 		if fn == rf0 {
 			for _, l := range condsOf(NewPostDom(fn).ControlDeps(), in.Block()) {
 				if prm, ok := l.Cond.(*ssa.Parameter); ok && l.Pol {
@@ -496,7 +818,16 @@ func ruleWhoWritesFiles(c *Ctx, rule string) {
 			}
 		}
 		sort.Strings(callers)
-		ob.Check(len(callers) == 1 && callers[0] == "engine.searchReplace", "only caller: engine.searchReplace", "callers: "+strings.Join(callers, ", "))
+		srF := c.Fn("engine", "searchReplace")
+		okCallers := len(callers) > 0
+		for fn := range c.allFns {
+			if c.isRepoFn(fn) && len(callsTo(fn, wff)) > 0 && fn != srF {
+				if srF == nil || !c.onlyThrough(append(c.runRoots(), c.compileRoots()...), srF, fn) {
+					okCallers = false
+				}
+			}
+		}
+		ob.Check(okCallers, "called only by engine.searchReplace (or helpers only it reaches): "+strings.Join(callers, ", "), "callers: "+strings.Join(callers, ", "))
 		ob.Nontrivial = true
 		// flags
 		ob3 := r.Ob(rule, "files.WriterFromFile opens with create, truncate and write access", c.pos(wff.Pos()))
@@ -1014,4 +1345,38 @@ func ruleAffixOverlap(c *Ctx, rule string, pkgs []string) {
 	} else {
 		ob.Bad(strings.Join(bad, "; ") + ": without comparing len(name) with the lengths of the affixes the prefix and the suffix may overlap, so a name shorter than prefix+suffix is selected (`ab*ba` selects `aba`)")
 	}
+}
+
+// sameCallValue: the two values are the same SSA value, or calls of the same getter on the same values (a getter called twice).
+func sameCallValue(a, b ssa.Value, depth int) bool {
+	if a == b {
+		return true
+	}
+	if depth > 3 {
+		return false
+	}
+	ca, ok1 := a.(*ssa.Call)
+	cb, ok2 := b.(*ssa.Call)
+	if !ok1 || !ok2 || len(ca.Call.Args) != len(cb.Call.Args) {
+		return false
+	}
+	if ca.Call.IsInvoke() != cb.Call.IsInvoke() {
+		return false
+	}
+	if ca.Call.IsInvoke() {
+		if ca.Call.Method != cb.Call.Method || !sameCallValue(ca.Call.Value, cb.Call.Value, depth+1) {
+			return false
+		}
+		if ca.Call.Method.Name() != "Size" && ca.Call.Method.Name() != "Len" {
+			return false
+		}
+	} else if ca.Call.StaticCallee() == nil || ca.Call.StaticCallee() != cb.Call.StaticCallee() {
+		return false
+	}
+	for i := range ca.Call.Args {
+		if !sameCallValue(ca.Call.Args[i], cb.Call.Args[i], depth+1) {
+			return false
+		}
+	}
+	return true
 }
